@@ -610,6 +610,27 @@ theorem appLife_deallocApp (key other : String) (r : CItem) (a : CApp) (h : AppL
       (updItem key (fun x => { x with allocated := false, release := none }) a.items) := hy
   exact flags_updItem2 hy' (fun _ => ⟨rfl, rfl, rfl⟩) (fun _ => ⟨rfl, rfl, rfl⟩)
 
+/-- a Completing application runs again: state, log and timer only; Running is neither Completing nor terminated -/
+theorem appLife_runAgain (a : CApp) (h : AppLife a) : AppLife (runAgain a) := by
+  by_cases hs : a.state = "Completing"
+  · have hst : (runAgain a).state = "Running" := by rw [runAgain_state, if_pos hs]
+    refine ⟨?_, ?_, ?_, ?_⟩
+    · intro hl y hy
+      rw [runAgain_items] at hy; rw [runAgain_live] at hl
+      exact h.pos hl y hy
+    · intro _ hc; rw [hst] at hc; exact absurd hc (by decide)
+    · intro ht y hy hb
+      rw [runAgain_items] at hy
+      rw [runAgain_live, hst] at ht
+      rcases ht with ht | ht
+      · exact h.noPhOrphan (Or.inl ht) y hy hb
+      · exact absurd ht (by decide)
+    · intro hc; rw [hst] at hc; exact absurd hc (by decide)
+  · rw [runAgain_of_ne a hs]; exact h
+
+theorem appLife_deallocAppRun (key other : String) (r : CItem) (a : CApp) (h : AppLife a) :
+    AppLife (deallocAppRun key other r a) := appLife_runAgain _ (appLife_deallocApp key other r a h)
+
 theorem lifeCore_unlink (c : Core) (app k1 k2 : String) (h : LifeCore c) : LifeCore (updApp c app (unlinkApp k1 k2)) := by
   refine lifeCore_of_apps ?_ h.posNode
   intro b hb
@@ -619,12 +640,12 @@ theorem lifeCore_unlink (c : Core) (app k1 k2 : String) (h : LifeCore c) : LifeC
   · exact app_of_lifeCore h hx
 
 theorem lifeCore_dealloc (c : Core) (app key other : String) (r : CItem) (chain : List String) (fq : CQueue → CQueue)
-    (h : LifeCore c) : LifeCore (updQueues (updApp c app (deallocApp key other r)) chain fq) := by
+    (h : LifeCore c) : LifeCore (updQueues (updApp c app (deallocAppRun key other r)) chain fq) := by
   refine lifeCore_of_apps ?_ h.posNode
   intro b hb
   obtain ⟨x, hx, rfl⟩ := List.mem_map.mp hb
   split
-  · exact appLife_deallocApp key other r x (app_of_lifeCore h hx)
+  · exact appLife_deallocAppRun key other r x (app_of_lifeCore h hx)
   · exact app_of_lifeCore h hx
 
 /-! ### the swap confirmed by the removal of the placeholder's node -/
@@ -799,49 +820,82 @@ theorem nopend_dropNode (c : Core) (id : String) (t t' : Res) (h : NoPendInv c) 
 /-! ### the clause about asks -/
 
 /-- No application touched by the removal of node `id` has a placeholder swap in flight: then no round of the loop rolls
-    a replacement back (`deallocApp`, the known exception of `NoPendInv`), every round is the plain release. -/
+    a replacement back, every round is the plain release.  (Before the repair 20ee082 the roll-back was the exception of
+    `NoPendInv` and this was the side condition of its preservation; it is no longer needed — `nopendMid_nodeRmAlloc`
+    below — and only kept as the hypothesis of the `_partial` form of the C10 theorem.) -/
 def NoRollback (s : Core) (id : String) (order : List (String × String)) : Prop :=
   ∀ n, s.findNode id = some n → ∀ p ∈ order ++ nodeRest n order, ∀ a, s.findApp p.1 = some a →
     ∀ i ∈ a.items, i.release = none
 
+/-! ### item updates that keep what `outstanding` reads -/
+
 namespace LifeD
 
-/-- the invariant of the loop: no application named in the list of rounds to come has an item with a replacement link -/
-def NoLinks (c : Core) (l : List (String × String)) : Prop :=
-  ∀ p ∈ l, ∀ a ∈ c.apps, a.live = true → a.id = p.1 → ∀ i ∈ a.items, i.release = none
+theorem out_updItem {k : String} {g : CItem → CItem} {l : List CItem} {y : CItem} (hy : y ∈ updItem k g l)
+    (hg : ∀ x, (g x).inReq = x.inReq ∧ (g x).allocated = x.allocated) : ∃ x ∈ l, y.outstanding = x.outstanding := by
+  obtain ⟨x, hx, h | h⟩ := mem_updItem hy
+  · obtain ⟨_, rfl⟩ := h
+    exact ⟨x, hx, by unfold CItem.outstanding; rw [(hg x).1, (hg x).2]⟩
+  · obtain ⟨_, rfl⟩ := h; exact ⟨y, hx, rfl⟩
 
-theorem noLinks_of_noRollback {s : Core} {id : String} {order : List (String × String)} (hw : CoreWF s)
-    (h : NoRollback s id order) {n : CNode} (hn : s.findNode id = some n) : NoLinks s (order ++ nodeRest n order) := by
-  intro p hp a ha hl hid
-  cases hfind : s.findApp p.1 with
-  | none => exact absurd hid (findApp_none hfind a ha hl)
-  | some a' =>
-    obtain ⟨ham', hl', hid'⟩ := findApp_some hfind
-    have : a = a' := (appIds_atMostOne p.1 hw.appIds).eq ha ham' (by simp [hl, hid]) (by simp [hl', hid'])
-    subst this
-    exact h n hn p hp a hfind
+end LifeD
 
-theorem noLinks_map {c t : Core} {l : List (String × String)} (g : CApp → CApp) (hta : t.apps = c.apps.map g)
-    (hg : ∀ x, (g x).live = x.live ∧ (g x).id = x.id ∧ (g x).state = x.state ∧ (g x).items = x.items)
-    (h : NoLinks c l) : NoLinks t l := by
-  intro p hp b hb hlb hidb
+/-! ### the clause about asks, in full: a round that rolls a replacement back moves a Completing application back to
+  Running (`deallocAppRun`, repair 20ee082), so the loop keeps the clause in its mid-removal form `NoPendMid` -/
+
+namespace LifeD
+
+theorem appMid_of_live {a : CApp} (hl : a.live = true)
+    (h : a.state = "Completing" → ∀ i ∈ a.items, i.outstanding = false) : AppNoPendMid a :=
+  ⟨fun _ => h, fun hf => by rw [hl] at hf; cases hf⟩
+
+theorem appMid_of_sub {a b : CApp} (hl : b.live = a.live) (hs : b.state = a.state)
+    (hi : ∀ y ∈ b.items, ∃ x ∈ a.items, y.outstanding = x.outstanding) (h : AppNoPendMid a) : AppNoPendMid b := by
+  refine ⟨?_, ?_⟩
+  · intro hlb hsb y hy
+    obtain ⟨x, hx, ho⟩ := hi y hy
+    rw [ho]; exact h.completingNoPending (hl ▸ hlb) (hs ▸ hsb) x hx
+  · intro hlb hsb y hy
+    obtain ⟨x, hx, ho⟩ := hi y hy
+    rw [ho]; exact h.completedNoAsk (hl ▸ hlb) (hs ▸ hsb) x hx
+
+theorem mid_setApp {c t : Core} (hw : CoreWF c) {app : String} {a : CApp} (hfind : c.findApp app = some a)
+    (f : CApp → CApp) (hta : t.apps = updApps c.apps app f) (h : NoPendMid c) (hf : AppNoPendMid (f a)) : NoPendMid t := by
+  obtain ⟨ham, hl, hid⟩ := findApp_some hfind
+  intro b hb
+  rw [hta] at hb
+  rcases mem_updApps hw.appIds ham hl hid hb with rfl | ⟨hbs, _⟩
+  · exact hf
+  · exact h b hbs
+
+theorem mid_map {c t : Core} (g : CApp → CApp) (hta : t.apps = c.apps.map g)
+    (hg : ∀ x, (g x).live = x.live ∧ (g x).state = x.state ∧ (g x).items = x.items) (h : NoPendMid c) : NoPendMid t := by
+  intro b hb
   rw [hta] at hb
   obtain ⟨x, hx, rfl⟩ := List.mem_map.mp hb
-  obtain ⟨h1, h2, _, h4⟩ := hg x
-  rw [h4]
-  exact h p hp x hx (h1 ▸ hlb) (h2 ▸ hidb)
+  obtain ⟨h1, h2, h3⟩ := hg x
+  exact appMid_of_sub h1 h2 (fun y hy => ⟨y, by rw [← h3]; exact hy, rfl⟩) (h x hx)
 
-theorem noLinks_unreserveFold (id : String) (r : List String) (c : Core) (l : List (String × String)) (h : NoLinks c l) :
-    NoLinks (r.foldl (fun c k => unreserveOn c id k) c) l := by
-  induction r generalizing c with
-  | nil => exact h
-  | cons k t ih =>
-    obtain ⟨g, hta, hg⟩ := unreserveOn_apps c id k
-    exact ih (unreserveOn c id k) (noLinks_map g hta hg h)
+/-- the released allocation: Completing is entered only with a pending total of zero; the record stays listed as live -/
+theorem appMid_nodeRmApp (key : String) (i : CItem) (a : CApp) (hl : a.live = true) (hba : AppBooks a) (hwa : AppWF a)
+    (hL : AppLife a) (h : AppNoPendMid a) : AppNoPendMid (nodeRmApp key i a) := by
+  have hitems : ∀ y ∈ (nodeRmApp key i a).items, ∃ x ∈ a.items, y.outstanding = x.outstanding := by
+    intro y hy
+    rw [nodeRmApp_items] at hy
+    obtain ⟨x, hx, _, _, h3, h4, _, _⟩ := mem_unbound' hy
+    exact ⟨x, hx, by unfold CItem.outstanding; rw [h3, h4]⟩
+  obtain ⟨_, _, z3⟩ := AppBooks.none_of_zero hba hwa (hL.pos hl)
+  obtain ⟨f1, _, _⟩ := relAppT_state_facts key i a
+  refine appMid_of_live rfl ?_
+  intro hs y hy
+  obtain ⟨x, hx, ho⟩ := hitems y hy
+  rw [ho]
+  rcases f1 hs with h1 | ⟨_, h1⟩
+  · exact h.completingNoPending hl h1 x hx
+  · exact z3 h1 x hx
 
-/-- a plain release keeps the replacement links as they are and creates none -/
-theorem noLinks_nodeRmBound (c : Core) (app key : String) (l : List (String × String)) (hw : CoreWF c) (h : NoLinks c l) :
-    NoLinks (nodeRmBound c app key) l := by
+theorem mid_nodeRmBound (c : Core) (app key : String) (hw : CoreWF c) (hb : Books c) (hL : LifeCore c)
+    (h : NoPendMid c) : NoPendMid (nodeRmBound c app key) := by
   cases hfind : c.findApp app with
   | none => unfold nodeRmBound; simp only [hfind]; exact h
   | some a =>
@@ -854,120 +908,57 @@ theorem noLinks_nodeRmBound (c : Core) (app key : String) (l : List (String × S
         simp only [hfind, hitem, hbd, Bool.not_false, if_true]
         exact h
       | true =>
-        obtain ⟨ham, hl, hid⟩ := findApp_some hfind
+        obtain ⟨ham, hl, _⟩ := findApp_some hfind
         obtain ⟨hta, _, _⟩ := nodeRmBound_lists c app key a i hfind hitem hbd
-        intro p hp b hb hlb hidb y hy
-        rw [hta] at hb
-        rcases mem_updApps hw.appIds ham hl hid hb with rfl | ⟨hbs, _⟩
-        · rw [nodeRmApp_items] at hy
-          obtain ⟨x, hx, _, _, _, _, hrel, _⟩ := mem_unbound' hy
-          rw [hrel]
-          rw [nodeRmApp_id] at hidb
-          exact h p hp a ham hl hidb x hx
-        · exact h p hp b hbs hlb hidb y hy
+        exact mid_setApp hw hfind _ hta h
+          (appMid_nodeRmApp key i a hl (hb.apps a ham hl) (hw.app ham hl) (app_of_lifeCore hL ham) (h a ham))
 
-/-- without replacement links the round is the plain release -/
-theorem nodeRmAlloc_eq_bound (c : Core) (nodeId app key : String)
-    (h : ∀ a ∈ c.apps, a.live = true → a.id = app → ∀ i ∈ a.items, i.release = none) :
-    nodeRmAlloc c nodeId app key = nodeRmBound c app key := by
-  cases hfind : c.findApp app with
-  | none => unfold nodeRmAlloc nodeRmBound; simp only [hfind]
-  | some a =>
-    cases hitem : a.items.find? (·.key == key) with
-    | none => unfold nodeRmAlloc nodeRmBound; simp only [hfind, hitem]
-    | some i =>
-      obtain ⟨ham, hl, hid⟩ := findApp_some hfind
-      obtain ⟨him, _⟩ := find_key_some hitem
-      exact nodeRmAlloc_plain c nodeId app key a i hfind hitem (h a ham hl hid i him)
-
-end LifeD
-
-open LifeD in
-theorem nopend_nodeRmBound (c : Core) (app key : String) (hw : CoreWF c) (hb : Books c) (hL : LifeCore c)
-    (h : NoPendInv c) : NoPendInv (nodeRmBound c app key) := noPend_nodeRmBound c app key hw hb hL h
-
-open LifeD in
-/-- the loop over the allocations of the node keeps the clause about asks when no application named in the list has a
-    swap in flight (every round is then the plain release; `NodeRmOK` has nothing to say about it) -/
-theorem nopend_nodeLoop (nodeId : String) (l : List (String × String)) (c : Core) (hw : CoreWF c) (hb : Books c)
-    (hL : LifeCore c) (hP : NoPendInv c) (hnl : NoLinks c l) :
-    NoPendInv (l.foldl (fun c p => nodeRmAlloc c nodeId p.1 p.2) c) := by
-  induction l generalizing c with
-  | nil => exact hP
-  | cons p t ih =>
-    have e := nodeRmAlloc_eq_bound c nodeId p.1 p.2 (hnl p List.mem_cons_self)
-    rw [List.foldl_cons, e]
-    obtain ⟨hb1, hw1⟩ := nodeRmBound_props c p.1 p.2 hw hb
-    exact ih (nodeRmBound c p.1 p.2) hw1 hb1 (lifeCore_nodeRmBound c p.1 p.2 hw hb hL)
-      (noPend_nodeRmBound c p.1 p.2 hw hb hL hP)
-      (noLinks_nodeRmBound c p.1 p.2 t hw (fun q hq => hnl q (List.mem_cons_of_mem _ hq)))
-
-/-! ### the clause about asks, finer: only the rounds that roll a replacement back are excluded -/
-
-namespace LifeD
-
-theorem out_updItem {k : String} {g : CItem → CItem} {l : List CItem} {y : CItem} (hy : y ∈ updItem k g l)
-    (hg : ∀ x, (g x).inReq = x.inReq ∧ (g x).allocated = x.allocated) : ∃ x ∈ l, y.outstanding = x.outstanding := by
-  obtain ⟨x, hx, h | h⟩ := mem_updItem hy
-  · obtain ⟨_, rfl⟩ := h
-    exact ⟨x, hx, by unfold CItem.outstanding; rw [(hg x).1, (hg x).2]⟩
-  · obtain ⟨_, rfl⟩ := h; exact ⟨y, hx, rfl⟩
-
-theorem appNoPend_unlinkApp (k1 k2 : String) (a : CApp) (h : AppNoPend a) : AppNoPend (unlinkApp k1 k2 a) := by
-  refine AppNoPend.of_sub (a := a) (b := unlinkApp k1 k2 a) rfl rfl ?_ h
+theorem appMid_unlinkApp (k1 k2 : String) (a : CApp) (h : AppNoPendMid a) : AppNoPendMid (unlinkApp k1 k2 a) := by
+  refine appMid_of_sub (a := a) (b := unlinkApp k1 k2 a) rfl rfl ?_ h
   intro y hy
   have hy' : y ∈ updItem k2 (fun x => { x with release := none }) (updItem k1 (fun x => { x with release := none }) a.items) := hy
   obtain ⟨z, hz, e1⟩ := out_updItem hy' (fun _ => ⟨rfl, rfl⟩)
   obtain ⟨x, hx, e2⟩ := out_updItem hz (fun _ => ⟨rfl, rfl⟩)
   exact ⟨x, hx, e1.trans e2⟩
 
-theorem noPend_unlink (c : Core) (app k1 k2 : String) (h : NoPendInv c) : NoPendInv (updApp c app (unlinkApp k1 k2)) := by
-  refine noPend_of_apps ?_
+theorem mid_unlink (c : Core) (app k1 k2 : String) (h : NoPendMid c) : NoPendMid (updApp c app (unlinkApp k1 k2)) := by
   intro b hb
   obtain ⟨x, hx, rfl⟩ := List.mem_map.mp hb
   split
-  · exact appNoPend_unlinkApp k1 k2 x (app_of_noPend h hx)
-  · exact app_of_noPend h hx
+  · exact appMid_unlinkApp k1 k2 x (h x hx)
+  · exact h x hx
 
-/-- the confirmed swap: never Completing afterwards, Completed only if it was; the real allocation is allocated -/
-theorem appNoPend_confirmApp (i r : CItem) (a : CApp) (hok : ReplOK a i r) (h : AppNoPend a) :
-    AppNoPend (confirmApp i r a) := by
-  have hitems : (confirmApp i r a).items = replItems i r a.items := replApp_items i r a
-  obtain ⟨f1, _, f3⟩ := replApp_state_facts i r a
-  refine ⟨fun _ hs => absurd hs f1, ?_⟩
-  intro hs y hy
-  rw [hitems] at hy
-  rcases mem_replItems' hy with ⟨x, hx, _, _, h3, h4, _⟩ | rfl
-  · have : y.outstanding = x.outstanding := by unfold CItem.outstanding; rw [h3, h4]
-    rw [this]; exact h.completedNoAsk (f3 hs) x hx
-  · show (r.inReq && !r.allocated) = false
-    rw [hok.rAllocated]; simp
+/-- the replacement rolled back: the ask is outstanding again, and the application is not Completing (`runAgain`) -/
+theorem mid_dealloc (c : Core) (app key other : String) (r : CItem) (chain : List String) (fq : CQueue → CQueue)
+    (h : NoPendMid c) : NoPendMid (updQueues (updApp c app (deallocAppRun key other r)) chain fq) := by
+  intro b hb
+  obtain ⟨x, hx, rfl⟩ := List.mem_map.mp hb
+  split
+  · rename_i hc
+    simp only [Bool.and_eq_true] at hc
+    exact appMid_of_live ((runAgain_live _).trans hc.1) (fun hs => absurd hs (runAgain_state_ne _))
+  · exact h x hx
+
+/-- the confirmed swap: never Completing afterwards; the record stays listed as live -/
+theorem appMid_confirmApp (i r : CItem) (a : CApp) : AppNoPendMid (confirmApp i r a) :=
+  appMid_of_live rfl (fun hs => absurd hs (replApp_state_facts i r a).1)
 
 end LifeD
 
-/-- The round `nodeRmAlloc c nodeId app key` does not roll a replacement back (no `deallocApp`: the real half of the swap
-    is no longer an allocated ask). -/
-structure NoDealloc (c : Core) (nodeId app key : String) : Prop where
-  sameNode : ∀ a i rk r, c.findApp app = some a → a.items.find? (·.key == key) = some i → i.release = some rk → i.ph = true →
-    findReal c a rk = some r → r.node = nodeId → (r.inReq && r.allocated) = false
-  parked : ∀ a i rk, c.findApp app = some a → a.items.find? (·.key == key) = some i → i.release = some rk → i.ph = false →
-    (i.inReq && i.allocated) = false
-
 open LifeD in
-/-- one round of the loop keeps the clause about asks unless it rolls a replacement back -/
-theorem nopend_nodeRmAlloc (c : Core) (nodeId app key : String) (hw : CoreWF c) (hb : Books c) (hL : LifeCore c)
-    (hP : NoPendInv c) (hok : NodeRmOK c nodeId app key) (hnd : NoDealloc c nodeId app key) :
-    NoPendInv (nodeRmAlloc c nodeId app key) := by
+/-- one round of the loop keeps the clause about asks (mid-removal form), whatever the round does -/
+theorem nopendMid_nodeRmAlloc (c : Core) (nodeId app key : String) (hw : CoreWF c) (hb : Books c) (hL : LifeCore c)
+    (hP : NoPendMid c) (hok : NodeRmOK c nodeId app key) : NoPendMid (nodeRmAlloc c nodeId app key) := by
   cases hfind : c.findApp app with
   | none => unfold nodeRmAlloc; simp only [hfind]; exact hP
   | some a =>
     cases hitem : a.items.find? (·.key == key) with
     | none => unfold nodeRmAlloc; simp only [hfind, hitem]; exact hP
     | some i =>
-      obtain ⟨ham, hl, _⟩ := findApp_some hfind
+      obtain ⟨him, hkey⟩ := find_key_some hitem
       cases hrel : i.release with
       | none =>
-        rw [nodeRmAlloc_plain c nodeId app key a i hfind hitem hrel]; exact noPend_nodeRmBound c app key hw hb hL hP
+        rw [nodeRmAlloc_plain c nodeId app key a i hfind hitem hrel]; exact mid_nodeRmBound c app key hw hb hL hP
       | some rk =>
         cases hph : i.ph with
         | true =>
@@ -975,7 +966,7 @@ theorem nopend_nodeRmAlloc (c : Core) (nodeId app key : String) (hw : CoreWF c) 
           | none =>
             rw [nodeRmAlloc_noReal c nodeId app key a i rk hfind hitem hrel hph hreal]
             obtain ⟨hb1, hw1⟩ := unlink_props c app rk key hw hb
-            exact noPend_nodeRmBound _ app key hw1 hb1 (lifeCore_unlink c app rk key hL) (noPend_unlink c app rk key hP)
+            exact mid_nodeRmBound _ app key hw1 hb1 (lifeCore_unlink c app rk key hL) (mid_unlink c app rk key hP)
           | some r =>
             cases hnode : (r.node != nodeId) with
             | true =>
@@ -984,37 +975,56 @@ theorem nopend_nodeRmAlloc (c : Core) (nodeId app key : String) (hw : CoreWF c) 
               | false => simp only [Bool.not_false, if_true]; exact hP
               | true =>
                 simp only [Bool.not_true, Bool.false_eq_true, if_false]
-                obtain ⟨hrepl, _⟩ := hok.confirm a i rk r hfind hitem hrel hph hreal (by simpa using hnode) hbd
-                exact noPend_setApp hw hfind (fun _ => confirmApp i r a) rfl hP
-                  (appNoPend_confirmApp i r a hrepl (app_of_noPend hP ham))
+                exact mid_setApp hw hfind (fun _ => confirmApp i r a) rfl hP (appMid_confirmApp i r a)
             | false =>
-              rw [nodeRmAlloc_same c nodeId app key a i rk r hfind hitem hrel hph hreal hnode,
-                hnd.sameNode a i rk r hfind hitem hrel hph hreal (by simpa using hnode)]
-              simp only [Bool.false_eq_true, if_false]
-              obtain ⟨hb1, hw1⟩ := unlink_props c app rk key hw hb
-              exact noPend_nodeRmBound _ app key hw1 hb1 (lifeCore_unlink c app rk key hL) (noPend_unlink c app rk key hP)
+              rw [nodeRmAlloc_same c nodeId app key a i rk r hfind hitem hrel hph hreal hnode]
+              cases hc : (r.inReq && r.allocated) with
+              | true =>
+                simp only [if_true]
+                simp only [Bool.and_eq_true] at hc
+                obtain ⟨hrm, hrk⟩ := find_key_some (findReal_inReq hreal hc.1)
+                obtain ⟨hnb, hsat⟩ := hok.sameNode a i rk r hfind hitem hrel hph hreal (by simpa using hnode) hc.1 hc.2
+                obtain ⟨hb1, hw1⟩ := dealloc_props c app rk key a r hw hb hfind hrm hrk hc.1 hc.2 hnb hsat
+                exact mid_nodeRmBound _ app key hw1 hb1 (lifeCore_dealloc c app rk key r _ _ hL)
+                  (mid_dealloc c app rk key r _ _ hP)
+              | false =>
+                simp only [Bool.false_eq_true, if_false]
+                obtain ⟨hb1, hw1⟩ := unlink_props c app rk key hw hb
+                exact mid_nodeRmBound _ app key hw1 hb1 (lifeCore_unlink c app rk key hL) (mid_unlink c app rk key hP)
         | false =>
-          rw [nodeRmAlloc_parked c nodeId app key a i rk hfind hitem hrel hph, hnd.parked a i rk hfind hitem hrel hph]
-          simp only [Bool.false_eq_true, if_false]
-          obtain ⟨hb1, hw1⟩ := unlink_props c app rk key hw hb
-          exact noPend_nodeRmBound _ app key hw1 hb1 (lifeCore_unlink c app rk key hL) (noPend_unlink c app rk key hP)
+          rw [nodeRmAlloc_parked c nodeId app key a i rk hfind hitem hrel hph]
+          cases hc : (i.inReq && i.allocated) with
+          | true =>
+            simp only [if_true]
+            simp only [Bool.and_eq_true] at hc
+            obtain ⟨hnb, hsat⟩ := hok.parked a i rk hfind hitem hrel hph hc.1 hc.2
+            obtain ⟨hb1, hw1⟩ := dealloc_props c app key rk a i hw hb hfind him hkey hc.1 hc.2 hnb hsat
+            exact mid_nodeRmBound _ app key hw1 hb1 (lifeCore_dealloc c app key rk i _ _ hL)
+              (mid_dealloc c app key rk i _ _ hP)
+          | false =>
+            simp only [Bool.false_eq_true, if_false]
+            obtain ⟨hb1, hw1⟩ := unlink_props c app rk key hw hb
+            exact mid_nodeRmBound _ app key hw1 hb1 (lifeCore_unlink c app rk key hL) (mid_unlink c app rk key hP)
 
-/-- no round of the loop rolls a replacement back, each in the state the previous rounds left (like `NodeLoopOK`) -/
-def NoDeallocLoop (nodeId : String) : Core → List (String × String) → Prop
-  | _, [] => True
-  | c, p :: t => NoDealloc c nodeId p.1 p.2 ∧ NoDeallocLoop nodeId (nodeRmAlloc c nodeId p.1 p.2) t
-
-theorem nopend_nodeLoop_fine (nodeId : String) (l : List (String × String)) (c : Core) (hw : CoreWF c) (hb : Books c)
-    (hL : LifeCore c) (hP : NoPendInv c) (hok : NodeLoopOK nodeId c l) (hnd : NoDeallocLoop nodeId c l) :
-    NoPendInv (l.foldl (fun c p => nodeRmAlloc c nodeId p.1 p.2) c) := by
+theorem nopendMid_nodeLoop (nodeId : String) (l : List (String × String)) (c : Core) (hw : CoreWF c) (hb : Books c)
+    (hL : LifeCore c) (hP : NoPendMid c) (hok : NodeLoopOK nodeId c l) :
+    NoPendMid (l.foldl (fun c p => nodeRmAlloc c nodeId p.1 p.2) c) := by
   induction l generalizing c with
   | nil => exact hP
   | cons p t ih =>
     obtain ⟨h1, h2⟩ := hok
-    obtain ⟨d1, d2⟩ := hnd
     obtain ⟨hb1, hw1⟩ := nodeRmAlloc_props c nodeId p.1 p.2 hw hb h1
     exact ih (nodeRmAlloc c nodeId p.1 p.2) hw1 hb1 (lifeCore_nodeRmAlloc c nodeId p.1 p.2 hw hb hL h1)
-      (nopend_nodeRmAlloc c nodeId p.1 p.2 hw hb hL hP h1 d1) h2 d2
+      (nopendMid_nodeRmAlloc c nodeId p.1 p.2 hw hb hL hP h1) h2
+
+open LifeD in
+theorem nopendMid_unreserveFold (id : String) (l : List String) (c : Core) (h : NoPendMid c) :
+    NoPendMid (l.foldl (fun c k => unreserveOn c id k) c) := by
+  induction l generalizing c with
+  | nil => exact h
+  | cons k t ih =>
+    obtain ⟨g, hta, hg⟩ := unreserveOn_apps c id k
+    exact ih (unreserveOn c id k) (mid_map g hta (fun x => ⟨(hg x).1, (hg x).2.2.1, (hg x).2.2.2⟩) h)
 
 /-! ### the body of `nodeRemove` up to the end of the loop -/
 
@@ -1026,15 +1036,14 @@ theorem lifeCore_nodeRemove_loop (s : Core) (id : String) (order : List (String 
   obtain ⟨hb0, hw0, _⟩ := unreserveFold_props id n.reservations s hw hb
   exact lifeCore_nodeLoop id _ _ hw0 hb0 (lifeCore_unreserveFold id n.reservations s hl.toLifeCore) (hok n hn)
 
-open LifeD in
-/-- `NoPendInv` after the loop of `nodeRemove` (the state before `sweepTerminated`), when no swap is rolled back -/
-theorem nopend_nodeRemove_loop (s : Core) (id : String) (order : List (String × String)) (hw : CoreWF s) (hb : Books s)
-    (hl : LifeInv s) (hp : NoPendInv s) (hnr : NoRollback s id order) {n : CNode} (hn : s.findNode id = some n) :
-    NoPendInv ((order ++ nodeRest n order).foldl (fun c p => nodeRmAlloc c id p.1 p.2)
+/-- `NoPendMid` after the loop of `nodeRemove` (the state before `sweepTerminated`): no side condition beyond those of
+    the node removal itself -/
+theorem nopendMid_nodeRemove_loop (s : Core) (id : String) (order : List (String × String)) (hw : CoreWF s) (hb : Books s)
+    (hl : LifeInv s) (hp : NoPendInv s) (hok : NodeRemoveOK s id order) {n : CNode} (hn : s.findNode id = some n) :
+    NoPendMid ((order ++ nodeRest n order).foldl (fun c p => nodeRmAlloc c id p.1 p.2)
       (n.reservations.foldl (fun c k => unreserveOn c id k) s)) := by
   obtain ⟨hb0, hw0, _⟩ := unreserveFold_props id n.reservations s hw hb
-  exact nopend_nodeLoop id _ _ hw0 hb0 (lifeCore_unreserveFold id n.reservations s hl.toLifeCore)
-    (nopend_unreserveFold id n.reservations s hp)
-    (noLinks_unreserveFold id n.reservations s _ (noLinks_of_noRollback hw hnr hn))
+  exact nopendMid_nodeLoop id _ _ hw0 hb0 (lifeCore_unreserveFold id n.reservations s hl.toLifeCore)
+    (nopendMid_unreserveFold id n.reservations s hp.mid) (hok n hn)
 
 end Yk
